@@ -1,0 +1,20 @@
+//go:build verif
+
+package consensus
+
+import (
+	"github.com/zenon-network/go-zenon/common/types"
+)
+
+// VerifPoints exposes the points module (period / epoch statistics with their DB cache) of a consensus instance.
+func VerifPoints(c Consensus) Points { return c.(*consensus).points }
+
+// VerifElectionByTick exposes electionManager.ElectionByTick: the producers (one per slot) and the delegations of a tick,
+// computed on the chain as it is now.
+func VerifElectionByTick(c Consensus, tick uint64) ([]*ProducerEvent, []*types.PillarDelegation, error) {
+	r, err := c.(*consensus).electionManager.ElectionByTick(tick)
+	if err != nil || r == nil {
+		return nil, nil, err
+	}
+	return r.Producers, r.Delegations, nil
+}
